@@ -25,6 +25,14 @@ CHECKS = {
             "code before it counts", "3/C14"),
     "C18": ("TLC checks OnceEach / CausalOrder / VersionsFirst; the TLA+ observer evaluates the same operators plus late "
             "get_*() outcomes on real executions in both API flavours", "3/C18"),
+    "C06": ("TransitRecords.tla: TLC checks PrefixInv / NothingAfterTamper / HungUpWhenBad / NoReadLeftBehind / ConsumerTruth under every "
+            "frame-level adversary operation; a covering family (every operation x position x records already received) and "
+            "simulated behaviours are executed on real, really-negotiated Connection pairs in both directions under five chunkings "
+            "with byte-level concretisation of flips; TransitObs.tla decides", "3/C06"),
+    "C07": ("Transit.tla: TLC checks AtMostOneGo / GoOnlyAfterRH / ReceiverNeedsGo / SameLink / KeyHoldersOnly / OthersClosed / "
+            "DeadlineDecides (+ NoHang liveness) for seven contender configurations (direct both ways, relay, strangers, wrong-key "
+            "peers); behaviours are replayed on a real TransitSender/TransitReceiver on the simulated TCP fabric with state "
+            "comparison after every step; TransitSelObs.tla decides", "3/C07"),
     "C19": ("Codes.tla over a frozen copy of the PGP word lists: TLC checks that each list is a bijection from bytes and that every "
             "completion extends the typed prefix and is allocatable, and enumerates every typed prefix / short code string; the real "
             "get_completions / choose_words / validate_code are run on every enumerated case; the code-entry protocol (one of "
@@ -74,6 +82,10 @@ def main():
 
 
 NOTES = {
+    "C06": "SecretBox assumed secure; <=4 records and <=2 adversary operations per direction in TLC; an altered length prefix is "
+           "judged only once a complete manipulated frame has been consumed",
+    "C07": "<=3 contenders per configuration, a unit split at most once, scripted relay and strangers; HKDF-derived handshakes "
+           "cannot be produced without the key",
     "C19": "the word lists in the spec are a frozen copy of the pinned commit; os.urandom is assumed uniform; TLC enumerates all "
            "prefixes of all words for 2 (thorough: 3) word codes; code-entry schedules as for the mailbox checks",
     "C20": "field values are abstracted to JSON kinds (str/int/float/bool/null/list/dict/missing) with a few concrete "
